@@ -4,10 +4,13 @@ Two stages share one scenario generator:
   stage_w_pcinfo   the real builtins run in this process (project, header_directory, static/shared_library, install,
                    pkg_config, the post-execute hook finalize_pkg_config, PkgConfigInfo.finalize, PkgConfigWriter) against
                    the model Misc/PcInfo.v (fields after auto_fill, finalize data, the Cflags/Libs/Libs.private text of both
-                   written forms, install.explicit)
+                   written forms, install.explicit) and Misc/PcFile.v (the variables section of both written forms)
   stage_system     real `bfg9000 configure-into`, then the real pkg-config on BUILD/pkgconfig (installed and -uninstalled
                    form); what it prints must denote exactly what the generator declared (reference semantics computed here
-                   from the scenario alone); thorough: real make and a consumer main.c compiled, linked and run
+                   from the scenario alone); one project per quick run (thorough: every fourth): real make and a consumer
+                   main.c compiled, linked and run; then the history "the build directory is renamed to a sibling path, no
+                   regeneration": both forms are queried again at the new place (moved_history) and the consumer is built
+                   again against the moved tree
 """
 import json
 import os
@@ -484,7 +487,18 @@ def observe_inproc(ip, sc, b):
 
     def ids(f, v):
         return None if v is None else [f(o) for o in v]
+
+    def var_section(lines):
+        """the variables of a written file: the lines before the empty line, with the scratch locations of this run
+        replaced by fixed names (the source directory is legitimately written; the build directory must not be)"""
+        sec = []
+        for ln in lines:
+            if ln == '':
+                break
+            sec.append(ln + '\n')
+        return ''.join(sec).replace(ip.build, '/BUILD').replace(ip.src, '/SRC')
     res = []
+    varsecs = []
     for info in b['pkg_config']:
         fields = [info.name, info.version, ids(hid, info.includes), ids(lid, info.libs), ids(lid, info.libs_private)]
         try:
@@ -500,6 +514,9 @@ def observe_inproc(ip, sc, b):
                             return ln + '\n'
                     return ''
                 texts.append([field('Cflags'), field('Libs'), field('Libs.private')])
+                vs = (installed, var_section(lines))
+                if vs not in varsecs:
+                    varsecs.append(vs)
             data = [d['name'], d['version'], [hid(o) for o in d['includes']], [lid(o) for o in d['libs']],
                     [lid(o) for o in d['libs_private']], [str(o) for o in d['link_options_private']]] + texts
         except ValueError as e:
@@ -513,7 +530,19 @@ def observe_inproc(ip, sc, b):
             explicit.append([1, lid(o)])
         elif not isinstance(o, PkgConfigPcFile):       # the written .pc files install themselves; not in the model
             explicit.append([2, 0])
-    return res, explicit, (hdr_rows, lib_rows, dir_rows)
+    return res, explicit, (hdr_rows, lib_rows, dir_rows), varsecs
+
+
+def model_install_dirs(env):
+    """the installed form's variables as the model is given them: [name, frag] per install root except bindir"""
+    from bfg9000.path import InstallRoot
+    return [[i.name, frag_of_path(env.install_dirs[i])] for i in InstallRoot if i != InstallRoot.bindir]
+
+
+def pc_dir_depth():
+    """levels of the directory of the .pc files below the build directory (PkgConfigWriter.directory = pkgconfig: one)"""
+    from bfg9000.builtins.pkg_config import PkgConfigWriter
+    return len([c for c in PkgConfigWriter.directory.suffix.split('/') if c and c != '.'])
 
 
 def opt(v):
@@ -556,6 +585,8 @@ def dec_script(name, r):
     d_str, d_opt, d_list = common.d_str, common.d_opt, common.d_list
     if name == 'pcinfo.explicit':
         return [list(x) for x in r]
+    if name == 'pc.variables':
+        return d_str(r)
     out = []
     for fields, fin in r:
         f = [d_opt(d_str, fields[0]), d_opt(d_str, fields[1])] + [d_opt(list, x) for x in fields[2:5]]
@@ -607,9 +638,9 @@ def stage_w_pcinfo(rep, rng, n):
             for l in sc['libs']:
                 rep.count('pcinfo:lib:%s(%s)' % (l['kind'], lib_eff(sc, l['id'])))
             try:
-                res, explicit, rows = observe_inproc(ip, sc, ip.run(sc))
+                res, explicit, rows, varsecs = observe_inproc(ip, sc, ip.run(sc))
             except Exception as e:         # a changed tree may raise anywhere; the model then disagrees
-                res, explicit, rows = 'raised %s: %s' % (type(e).__name__, e), None, ([], [], [])
+                res, explicit, rows, varsecs = 'raised %s: %s' % (type(e).__name__, e), None, ([], [], []), []
             for c in combos:
                 rep.count('pcinfo:auto=%d,libs=%s,includes=%s' % (c[0], c[1], c[2]))
             rep.case('pcinfo:' + bfg_text(sc), True)
@@ -617,6 +648,15 @@ def stage_w_pcinfo(rep, rng, n):
             impl.append(res)
             calls.append(('pcinfo.explicit', [model_actions(sc)]))
             impl.append(explicit)
+            # the variables section of every written file (both forms): install roots as configured; srcdir verbatim and
+            # builddir relative to ${pcfiledir} - the absolute build directory must not be written
+            for installed, text in varsecs:
+                rep.count('pcinfo:variables-section:%s' % ('installed' if installed else 'uninstalled'))
+                if installed:
+                    calls.append(('pc.variables', [uw, True, model_install_dirs(ip.env), '', 0]))
+                else:
+                    calls.append(('pc.variables', [uw, False, [], '/SRC', pc_dir_depth()]))
+                impl.append(text)
             scs.append(sc)
     finally:
         shutil.rmtree(root, ignore_errors=True)
@@ -846,23 +886,86 @@ def check_project(rep, P, thorough):
                     dict(replay, query='--exists'), classes=())
             if not ok:
                 continue
-            for what, args in (('cflags', ['--cflags']), ('libs', ['--libs']), ('static', ['--libs', '--static'])):
-                rc, out, err = P.query(r['name'], installed, args)
-                got = split_flags(parse_out(out)) if rc == 0 else None
-                want = tuple(sorted(s) for s in P.expect(r['name'], installed, what))
-                if got is None or tuple(got) != want:
-                    bad += 1
-                    diff = []
-                    if got is not None:
-                        for label, g, w in zip(('include dirs', 'library dirs', 'libraries', 'other options'), got, want):
-                            if g != w:
-                                diff.append('%s: undeclared %r, missing %r' % (label, sorted(set(g) - set(w)), sorted(set(w) - set(g))))
-                    rep.fail('%s: pkg-config %s gives %s; declared: include dirs %r, library dirs %r, libraries %r, options %r%s' % (
-                        tag, ' '.join(args), 'rc %d %s' % (rc, err[:200]) if got is None else '; '.join(diff), want[0], want[1],
-                        want[2], want[3], ''),
-                        dict(replay, query=' '.join(args), got=got, declared=[list(w) for w in want]),
-                        classes=P.flag_query_classes(r['name'], what, got, want))
+            bad += check_flags(rep, P, r, installed, tag, replay)
     return bad
+
+
+def check_flags(rep, P, r, installed, tag, replay, old_build=None, built=False):
+    """--cflags / --libs / --libs --static of one package in one form against what the scenario declares, with the
+    directories where P says they are now.  old_build: where the build directory was at configure time when it has been
+    moved since (no word may still name it); built: the project has been built, so every -I / -L directory of the
+    -uninstalled form must exist."""
+    bad = 0
+    for what, args in (('cflags', ['--cflags']), ('libs', ['--libs']), ('static', ['--libs', '--static'])):
+        rc, out, err = P.query(r['name'], installed, args)
+        words = parse_out(out) if rc == 0 else None
+        got = split_flags(words) if words is not None else None
+        want = tuple(sorted(s) for s in P.expect(r['name'], installed, what))
+        stale = [w for w in (words or []) if old_build is not None and old_build in w]
+        gone = [d for d in ((got[0] + got[1]) if (got is not None and built and not installed) else []) if not os.path.isdir(d)]
+        if got is None or tuple(got) != want or stale or gone:
+            bad += 1
+            diff = []
+            if got is not None:
+                for label, g, w in zip(('include dirs', 'library dirs', 'libraries', 'other options'), got, want):
+                    if g != w:
+                        diff.append('%s: undeclared %r, missing %r' % (label, sorted(set(g) - set(w)), sorted(set(w) - set(g))))
+            if stale:
+                diff.append('%r name(s) the place the build directory was configured at (%s), it is at %s now' % (stale, old_build, P.build))
+            if gone:
+                diff.append('after the build, %r are not directories' % (gone,))
+            rep.fail('%s: pkg-config %s gives %s; declared: include dirs %r, library dirs %r, libraries %r, options %r%s' % (
+                tag, ' '.join(args), 'rc %d %s' % (rc, err[:200]) if got is None else '; '.join(diff), want[0], want[1],
+                want[2], want[3], ''),
+                dict(replay, query=' '.join(args), got=got, declared=[list(w) for w in want]),
+                classes=() if (stale or gone) else
+                (BLANK_CLASS,) if blank_build_signature(P, installed, got, want) else
+                P.flag_query_classes(r['name'], what, got, want))
+    return bad
+
+
+BLANK_CLASS = 'pc-builddir-blank'
+
+
+def blank_build_signature(P, installed, got, want):
+    """Finding pc-builddir-blank: the build directory is at a path with a blank and the -uninstalled form is read (input
+    predicate), AND what pkg-config gives is exactly the declared flags with a backslash put before every blank of the
+    build directory in the -I / -L directories below it (failure signature: pkgconf keeps pcfiledir with its blanks
+    escaped, and the written '${builddir}/...' stands in single quotes, where the backslash is literal).  Libraries, options
+    and directories elsewhere must be as declared; anything else read at such a place is a different violation."""
+    if installed or got is None or ' ' not in P.build:
+        return False
+    esc = P.build.replace(' ', '\\ ')
+
+    def tr(d):
+        return esc + d[len(P.build):] if (d == P.build or d.startswith(P.build + '/')) else d
+    pred = [sorted(tr(d) for d in want[0]), sorted(tr(d) for d in want[1]), list(want[2]), list(want[3])]
+    return [list(g) for g in got] == pred and pred != [list(w) for w in want]
+
+
+def moved_history(rep, P, new_build, built):
+    """History: the build directory is renamed to a sibling path after configure (and, for a built project, after make) with
+    no regeneration in between; pkg-config then reads BUILD/pkgconfig at the NEW place.  The -uninstalled form must keep
+    describing the build tree: every directory that was inside the build directory is named below the new place (and
+    exists there once built), nothing names the old place, directories of the source tree stay; the installed form is
+    unaffected; a consumer still compiles, links and runs.  Returns (#failures, the project at its new place)."""
+    old = P.build
+    os.rename(old, new_build)
+    P2 = SysProject(P.sc, P.src, new_build, P.prefix, P.extdir)
+    bad = 0
+    for p, r in zip(pkgs_of(P.sc), P2.refs):
+        if not P2.resolvable(r['name']):
+            continue
+        for installed in (False, True):
+            form = 'installed' if installed else 'uninstalled'
+            tag = 'package %r [%s, build directory moved after %s]' % (r['name'], form, 'make' if built else 'configure')
+            replay = {'kind': 'system', 'scenario': P.sc, 'package': r['name'], 'form': form, 'build.bfg': bfg_text(P.sc),
+                      'history': 'build directory renamed to a sibling path after %s, PKG_CONFIG_PATH at the new place'
+                                 % ('make' if built else 'configure')}
+            rep.case('sys:%s:%s:%s:moved' % (bfg_text(P.sc), r['name'], form), True)
+            rep.count('sys:moved-build-dir:%s%s' % (form, ':built' if built else ''))
+            bad += check_flags(rep, P2, r, installed, tag, replay, old_build=old, built=built)
+    return bad, P2
 
 
 def stub_files(versions=None):
@@ -874,11 +977,13 @@ def stub_files(versions=None):
     return out
 
 
-def consumer(rep, P):
+def consumer(rep, P, history=None):
     """after a real make, compile + link + run a program against an uninstalled package: with the flags of
     `--libs --static` as they are, and - when every library in the declared closure has a static form - with the
-    libraries forced to their archives (-Wl,-Bstatic), so that every private dependency is really needed"""
+    libraries forced to their archives (-Wl,-Bstatic), so that every private dependency is really needed.
+    history: what happened to the build tree since make (e.g. it was moved), for the messages and the replay file"""
     sc = P.sc
+    hist = ' (%s)' % history if history else ''
     cands = [(p, r) for p, r in zip(pkgs_of(sc), P.refs) if P.resolvable(r['name']) and (r['includes'] or r['libs'])
              and not P.classes(r['name'])]
     bad = 0
@@ -903,21 +1008,23 @@ def consumer(rep, P):
         c = subprocess.run(['gcc', 'main.c', '-o', 'main'] + flags, cwd=d, capture_output=True, text=True, timeout=120)
         replay = {'kind': 'system', 'scenario': sc, 'package': r['name'], 'form': 'uninstalled', 'build.bfg': bfg_text(sc),
                   'query': 'consumer', 'flags': flags, 'main.c': code}
-        rep.count('sys:consumer')
+        if history:
+            replay['history'] = history
+        rep.count('sys:consumer' + (':moved' if history else ''))
         if c.returncode != 0:
             bad += 1
-            rep.fail('a consumer of package %r [uninstalled] does not build with %r: %s' % (r['name'], flags, c.stderr[-600:]),
+            rep.fail('a consumer of package %r [uninstalled]%s does not build with %r: %s' % (r['name'], hist, flags, c.stderr[-600:]),
                      replay, classes=P.classes(r['name']))
             continue
         ldp = ':'.join(sorted({P.libdir(l['id'], False) for l in sc['libs']}))
         x = subprocess.run(['./main'], cwd=d, capture_output=True, timeout=60, env={'LD_LIBRARY_PATH': ldp, 'PATH': '/usr/bin:/bin'})
         if x.returncode != 0:
             bad += 1
-            rep.fail('a consumer of package %r [uninstalled] builds but exits with %d' % (r['name'], x.returncode), replay,
+            rep.fail('a consumer of package %r [uninstalled]%s builds but exits with %d' % (r['name'], hist, x.returncode), replay,
                      classes=P.classes(r['name']))
         if all(forwards(sc, l) for l in r['libs'] + r['libs_private']) and r['libs']:
             # static consumer: the archives of the package and of everything they need, nothing from shared objects
-            rep.count('sys:consumer-static')
+            rep.count('sys:consumer-static' + (':moved' if history else ''))
             lflags = [f for f in flags if f.startswith(('-L', '-l'))]
             rest = [f for f in flags if f not in lflags]
             c = subprocess.run(['gcc', 'main.c', '-o', 'main-static'] + rest + ['-Wl,-Bstatic'] + lflags + ['-Wl,-Bdynamic'],
@@ -926,8 +1033,8 @@ def consumer(rep, P):
                 if c.returncode == 0 else None
             if c.returncode != 0 or x.returncode != 0:
                 bad += 1
-                rep.fail('a static consumer of package %r [uninstalled] (libraries taken from their archives) %s with the flags '
-                         'of --libs --static %r: %s' % (r['name'], 'does not link' if c.returncode else 'exits with %d' % x.returncode,
+                rep.fail('a static consumer of package %r [uninstalled]%s (libraries taken from their archives) %s with the flags '
+                         'of --libs --static %r: %s' % (r['name'], hist, 'does not link' if c.returncode else 'exits with %d' % x.returncode,
                                                         flags, c.stderr[-600:]),
                          dict(replay, query='consumer-static'), classes=P.classes(r['name']))
     return bad
@@ -964,6 +1071,16 @@ def run_project(rep, sc, thorough, prefix, expect_fail=None):
                          classes=())
                 return bad + 1, True
             bad += consumer(rep, P)
+        # history: the build directory is moved (no regeneration), the -uninstalled files are read at the new place
+        # (a third of the projects that are not built go to a place with a blank in its name: finding pc-builddir-blank)
+        import zlib
+        blank = (not sc['buildable'] and not any(classify_pkg(p) for p in pkgs_of(sc))
+                 and zlib.crc32(bfg_text(sc).encode('utf-8', 'surrogateescape')) % 3 == 0)
+        rep.count('sys:moved-to:%s' % ('path-with-blank' if blank else 'plain-path'))
+        b, P2 = moved_history(rep, P, os.path.join(s.root, 'relocated tree' if blank else 'relocated'), sc['buildable'])
+        bad += b
+        if sc['buildable']:
+            bad += consumer(rep, P2, history='build directory renamed to a sibling path after make')
         return bad, True
 
 
